@@ -362,6 +362,21 @@ def stack_corpus():
     return out
 
 
+def dead_load_corpus():
+    """a load whose result stays in use, a store that overlaps it, and a second load whose result a rule makes useless (X-X, X xor X, 0*X,
+    POP): removing the useless load must not disturb the order of the others"""
+    out = []
+    kills = ["DUP1 SUB", "DUP1 XOR", "PUSH1 0x0 MUL", "POP", "DUP1 EQ", "PUSH1 0x0 AND"]
+    for k in kills:
+        out.append("PUSH1 0x20 MLOAD PUSH1 0x7 PUSH1 0x21 MSTORE PUSH1 0x1f MLOAD %s" % k)
+        out.append("PUSH1 0x20 MLOAD PUSH1 0x7 PUSH1 0x20 MSTORE PUSH1 0x40 MLOAD %s" % k)
+        out.append("DUP1 MLOAD PUSH1 0x7 DUP3 MSTORE DUP2 PUSH1 0x1 ADD MLOAD %s" % k)
+        out.append("PUSH1 0x2 SLOAD PUSH1 0x7 DUP3 SSTORE PUSH1 0x3 SLOAD %s" % k)
+        out.append("DUP1 SLOAD PUSH1 0x7 DUP3 SSTORE DUP2 SLOAD %s" % k)
+        out.append("PUSH1 0x40 MLOAD PUSH1 0x20 PUSH1 0x0 KECCAK256 %s PUSH1 0x9 PUSH1 0x40 MSTORE" % k)
+    return out
+
+
 def hash_pair_corpus():
     """two reads of memory (hash/hash, hash/load, load/load) with equal and different offsets and lengths, constant and symbolic, with
     and without a store in between: reads may be unified only when they read the same bytes of the same memory"""
